@@ -65,6 +65,8 @@ func monitor(prop string, h *History, res *common.Result) {
 		waitMonitor(prop, h, res)
 	case "C10":
 		restartMonitor(prop, h, res)
+	case "C12":
+		paramMonitor(prop, h, res)
 	}
 	noclearDisc := false
 	for i := range h.Steps {
@@ -299,6 +301,15 @@ func waitMonitor(prop string, h *History, res *common.Result) {
 		if h.TieAt >= 0 && i >= h.TieAt || strings.HasPrefix(s.Impl, "panic ") || strings.HasPrefix(s.Impl, "start-failed ") {
 			return
 		}
+		if s.Op.Kind == "lock" && s.Resp.Err == "LockWaitTimeout" && !s.Resp.Pending {
+			// answered at once with a wait time-out: zero time has passed
+			if s.Op.Wt == nil || *s.Op.Wt <= 0 {
+				viol(res, prop, "seq:wait:timeout-without-timeout", fmt.Sprintf("%q has no wait timeout (absent/0 = wait without limit) but returned LockWaitTimeout at once", s.Op.Line()), h, i, nil)
+			} else {
+				viol(res, prop, "seq:wait:early-timeout", fmt.Sprintf("%q returned LockWaitTimeout at once, before its wait timeout", s.Op.Line()), h, i, nil)
+			}
+			return
+		}
 		if s.Op.Kind == "trylock" || s.Op.Kind == "lock" {
 			req := nreq
 			nreq++
@@ -436,4 +447,81 @@ func restartMonitor(prop string, h *History, res *common.Result) {
 			}
 		}
 	}
+}
+
+
+// ---------------------------------------------------------------- C12: the rules, stated directly
+
+// paramMonitor re-states the parameter rules of the property as a table and checks every request's
+// answer against it, given only the lock table before the request (size of an existing lock).
+func paramMonitor(prop string, h *History, res *common.Result) {
+	for i := range h.Steps {
+		s := &h.Steps[i]
+		if h.TieAt >= 0 && i >= h.TieAt || strings.HasPrefix(s.Impl, "panic ") || strings.HasPrefix(s.Impl, "start-failed ") {
+			return
+		}
+		want := ""
+		switch s.Op.Kind {
+		case "trylock", "lock":
+			size := int32(1)
+			if s.Op.Size != nil {
+				size = *s.Op.Size
+			}
+			switch {
+			case s.Op.Sid == "-":
+				want = "SessionDoesNotExist"
+			case s.Op.Lt != nil && *s.Op.Lt < 0:
+				want = "InvalidLockTimeout"
+			case s.Op.Kind == "lock" && s.Op.Wt != nil && *s.Op.Wt < 0:
+				want = "InvalidWaitTimeout"
+			case s.Op.Name == "":
+				want = "EmptyName"
+			case size <= 0:
+				want = "InvalidLockSize"
+			default:
+				if l, ok := s.Before.Table[s.Op.Name]; ok && l.Size != size {
+					want = "LockSizeMismatch"
+				} else {
+					want = "-"
+				}
+			}
+			if s.Resp.Err != want {
+				viol(res, prop, "seq:param:"+s.Op.Kind+":"+want, fmt.Sprintf("%q must answer %s by the parameter rules (existing lock sizes: %v) but answered %s", s.Op.Line(), want, sizesOf(s.Before), s.Resp.Err), h, i, nil)
+				return
+			}
+			if want == "-" && !s.Resp.Ok && !s.Resp.Pending {
+				// refused without error: only legitimate when the lock is full
+				if l, ok := s.Before.Table[s.Op.Name]; !ok || int64(len(l.Keys)) < int64(l.Size) {
+					viol(res, prop, "seq:param:refused-with-free-capacity", fmt.Sprintf("%q was refused although the lock has free capacity", s.Op.Line()), h, i, nil)
+					return
+				}
+			}
+			if want == "-" && (s.Resp.Ok || s.Resp.Pending) {
+				if l, ok := s.View.Table[s.Op.Name]; ok && l.Size != size {
+					viol(res, prop, "seq:param:wrong-size-recorded", fmt.Sprintf("%q created/used a lock of size %d", s.Op.Line(), l.Size), h, i, nil)
+					return
+				}
+				// an absent or zero lock timeout arms no lease
+				if s.Resp.Ok && (s.Op.Lt == nil || *s.Op.Lt == 0) && strings.Contains(s.View.TM, impl.Tok(s.Resp.Key)[1:]) {
+					viol(res, prop, "seq:param:lease-without-timeout", fmt.Sprintf("%q armed a lease although no lock timeout was requested", s.Op.Line()), h, i, nil)
+					return
+				}
+			}
+		case "renew":
+			if s.Op.T <= 0 && s.Resp.Err != "InvalidLockTimeout" {
+				viol(res, prop, "seq:param:renew:InvalidLockTimeout", fmt.Sprintf("%q must be refused with InvalidLockTimeout but answered %s", s.Op.Line(), s.Resp.Err), h, i, nil)
+				return
+			}
+		}
+	}
+}
+
+func sizesOf(v *impl.View) map[string]int32 {
+	m := map[string]int32{}
+	if v != nil {
+		for n, l := range v.Table {
+			m[n] = l.Size
+		}
+	}
+	return m
 }
